@@ -126,6 +126,10 @@ WideSum5(q, signed) == IF q = <<>> THEN <<0, 0, 0, 0, 0>> ELSE WideAdd5(WideSum5
 WideFits(q, dt) == LET s == WideSum5(q, dt = "i8") IN
                    IF dt = "i8" THEN s[1] = (IF s[2] >= 32768 THEN 65535 ELSE 0) ELSE s[1] = 0
 
+\* n times a 64-bit value given as limbs, modulo 2^64, by doubling (n up to millions costs ~22 additions)
+RECURSIVE WideMulN(_, _)
+WideMulN(x, n) == IF n = 0 THEN WideZero
+                  ELSE LET h == WideMulN(x, n \div 2)  d == WideAdd(h, h) IN IF n % 2 = 1 THEN WideAdd(d, x) ELSE d
 \* order of 64-bit values given as limbs: lexicographic on the limbs, the top bit flipped for the signed reading
 WideKey(x, signed) == IF signed THEN <<(x[1] + 32768) % 65536, x[2], x[3], x[4]>> ELSE x
 LexLess4(a, b) == \/ a[1] < b[1]
